@@ -5,6 +5,7 @@ import (
 	"flag"
 	"fmt"
 	"os"
+	"os/exec"
 	"path/filepath"
 	"regexp"
 	"sort"
@@ -64,7 +65,7 @@ func main() {
 		timeout  = flag.Duration("timeout", 10*time.Minute, "wall-clock budget")
 		solverMs = flag.Int("solverms", 60000, "per-query solver timeout (ms)")
 		samples  = flag.Int("samples", 5, "number of completed paths to sample with a model")
-		z3bin    = flag.String("z3", "z3", "solver binary")
+		z3bin    = flag.String("z3", "z3-new", "incremental solver binary (z3 5.1.0: its incremental core handles the array-heavy string queries an order of magnitude faster than 4.8.12); falls back to z3")
 		out      = flag.String("out", "", "result JSON file (default stdout)")
 		smtlog   = flag.String("smtlog", "", "write the SMT-LIB2 dialogue to this file")
 		verbose  = flag.Bool("v", false, "verbose")
@@ -155,6 +156,9 @@ func main() {
 		}
 		defer logw.Close()
 	}
+	if _, lerr := exec.LookPath(*z3bin); lerr != nil {
+		*z3bin = "z3"
+	}
 	var solver *Solver
 	if logw != nil {
 		solver, err = NewSolver(*z3bin, *solverMs, logw)
@@ -174,6 +178,23 @@ func main() {
 
 	// directives from harness files of this package
 	required := []string{}
+	replaceOwn := map[string]bool{}
+	var ambiguous []string
+	hdirOf := filepath.Join(*repo, strings.TrimPrefix(hpkg.Pkg.Path(), "github.com/cenkalti/rain/v2"))
+	// //vrt:use <repo-relative package dir>: also apply that harness package's replace directives
+	uses := map[string]bool{}
+	for path, src := range ov {
+		if filepath.Dir(path) != hdirOf {
+			continue
+		}
+		for _, m := range directiveRe.FindAllStringSubmatch(string(src), -1) {
+			if m[1] == "use" {
+				for _, d := range strings.Fields(m[2]) {
+					uses[filepath.Join(*repo, d)] = true
+				}
+			}
+		}
+	}
 	for path, src := range ov {
 		for _, m := range directiveRe.FindAllStringSubmatch(string(src), -1) {
 			args := strings.Fields(m[2])
@@ -191,9 +212,28 @@ func main() {
 					// harness for another package not loaded in this run
 					continue
 				}
+				// a directive in the harness's own package wins over one that comes
+				// from a package it merely imports; nospawn-style ambiguity between
+				// two foreign packages is an error
+				own := filepath.Dir(path) == hdirOf
+				if !own && !uses[filepath.Dir(path)] {
+					continue // foreign directives apply only when imported with //vrt:use
+				}
+				if prev, ok := replaceOwn[args[0]]; ok {
+					if prev && !own {
+						continue
+					}
+					if !prev && !own && e.replace[args[0]] != rf {
+						ambiguous = append(ambiguous, args[0])
+					}
+				}
+				replaceOwn[args[0]] = own
 				e.replace[args[0]] = rf
 			case "nospawn":
 				if len(args) > 1 && !contains(args[1:], *fnName) {
+					continue
+				}
+				if filepath.Dir(path) != hdirOf {
 					continue
 				}
 				if e.noSpawn == nil {
@@ -218,6 +258,11 @@ func main() {
 		Queries: solver.Queries, Sat: solver.Sat, Unsat: solver.Unsat, Unknown: solver.Unknown,
 		SolverS: solver.Time.Seconds(), WallS: time.Since(t0).Seconds(), LoadS: loadS, SolverErrors: solver.Errors, MaxDepth: e.MaxDepth, IfConverted: e.IfConverted, Fallbacks: solver.Fallbacks, MaxQueryS: solver.MaxQuery.Seconds(), AuxS: solver.AuxTime.Seconds(), AuxWins: solver.AuxWins,
 		Bounds: map[string]interface{}{"unwind": *unwind, "maxalloc": *maxAlloc, "maxpaths": *maxPaths, "timeout_s": timeout.Seconds(), "reverse_maps": *revmaps},
+	}
+	for _, a := range ambiguous {
+		if !replaceOwn[a] {
+			res.Inconclusive = append(res.Inconclusive, "ambiguous //vrt:replace for "+a+" in two imported harness packages")
+		}
 	}
 	for _, lbl := range required {
 		if e.CoverHit[lbl] == 0 {
